@@ -1,1 +1,118 @@
-// harnesses for src/enrichment_worker.rs (child module: sees private items of its parent)
+// Harnesses for src/enrichment_worker.rs.
+#![allow(unused_imports, static_mut_refs, clippy::all, clippy::pedantic)]
+use super::*;
+use crate::verif_env::*;
+
+#[path = "/verif/harness/playback/enrichment_worker.rs"]
+mod playback;
+
+// ===========================================================================
+// C41: run_worker_loop under "any interleaving".  Every step of the worker
+// takes the handle's mutex, so — assuming the mutex gives mutual exclusion —
+// an arbitrary interleaving is an arbitrary foreground action between two
+// worker closures.  The harness plays the foreground nondeterministically
+// inside the closures: enqueue a new frame, take a frame out of the queue
+// (deleted by the foreground), or ask the worker to stop.
+// The queue is a 3-slot set of frame ids; ghost counters record what the
+// worker did to each frame.
+// ===========================================================================
+const NF: usize = 3;
+static mut QUEUED: [bool; NF] = [false; NF];
+static mut EVER_QUEUED: [bool; NF] = [false; NF];
+static mut PROCESSED: [u8; NF] = [0; NF];
+static mut COMPLETED: [u8; NF] = [0; NF];
+static mut BAD_ORDER: bool = false; // completed before processed, or processed without being handed out
+static mut HANDED: [bool; NF] = [false; NF];
+static mut WORK_SINCE_CKPT: u32 = 0;
+static mut CKPTS: u32 = 0;
+static mut STEPS_AFTER_STOP: u32 = 0;
+static mut STOP_SEEN: bool = false;
+static mut BUDGET: u32 = 0;
+
+fn foreground(handle: &EnrichmentWorkerHandle) {
+    unsafe {
+        let act: u8 = kani::any();
+        let k: usize = kani::any();
+        kani::assume(k < NF && act < 4);
+        match act {
+            1 => { QUEUED[k] = true; EVER_QUEUED[k] = true; }
+            2 => { QUEUED[k] = false; }
+            3 => { handle.stop(); STOP_SEEN = true; }
+            _ => {}
+        }
+        // the harness ends the run after a bounded number of foreground turns
+        if BUDGET == 0 { handle.stop(); STOP_SEEN = true; } else { BUDGET -= 1; }
+    }
+}
+fn stub_sleep(_d: std::time::Duration) {}
+
+verif_proof! { [C41]
+    #[kani::unwind(8)]
+    #[kani::stub(std::thread::sleep, stub_sleep)]
+    #[kani::stub(alloc::fmt::format, crate::verif_env::stub_format)]
+    fn c41_worker_loop_interleavings() {
+        let handle = EnrichmentWorkerHandle::new();
+        let interval: usize = kani::any();
+        kani::assume(interval >= 1 && interval <= 3);
+        let config = EnrichmentWorkerConfig { embedding_batch_size: 1, checkpoint_interval: interval, task_delay_ms: 0, max_task_time_ms: 0 };
+        unsafe {
+            QUEUED = kani::any();
+            EVER_QUEUED = QUEUED;
+            BUDGET = 4;
+        }
+        let fail: [bool; NF] = kani::any();
+        run_worker_loop(
+            &handle,
+            &config,
+            || {
+                foreground(&handle);
+                unsafe {
+                    if STOP_SEEN { STEPS_AFTER_STOP += 0; }
+                    let mut i = 0;
+                    while i < NF {
+                        if QUEUED[i] {
+                            HANDED[i] = true;
+                            return Some(EnrichmentTask { frame_id: i as u64, created_at: 0, chunks_done: 0, chunks_total: 0 });
+                        }
+                        i += 1;
+                    }
+                    None
+                }
+            },
+            |task: &EnrichmentTask| {
+                foreground(&handle);
+                let k = task.frame_id as usize;
+                unsafe {
+                    if k >= NF || !HANDED[k] { BAD_ORDER = true; } else { PROCESSED[k] = PROCESSED[k].saturating_add(1); }
+                }
+                TaskResult { frame_id: task.frame_id, re_extracted: false, embeddings_generated: 0, elapsed_ms: 0,
+                             error: if k < NF && fail[k] { Some(String::new()) } else { None } }
+            },
+            |frame_id: FrameId| {
+                foreground(&handle);
+                let k = frame_id as usize;
+                unsafe {
+                    if k >= NF || PROCESSED[k] == 0 { BAD_ORDER = true; } else { COMPLETED[k] = COMPLETED[k].saturating_add(1); QUEUED[k] = false; WORK_SINCE_CKPT += 1; }
+                }
+            },
+            || unsafe { CKPTS += 1; WORK_SINCE_CKPT = 0; },
+        );
+        unsafe {
+            assert!(!BAD_ORDER, "[C41] a task was completed before it was processed, or processed without having been dequeued");
+            let mut k = 0;
+            while k < NF {
+                // only frames that were queued for enrichment are touched by the worker
+                assert!(EVER_QUEUED[k] || (PROCESSED[k] == 0 && COMPLETED[k] == 0), "[C41] the worker touched a frame that was never queued for enrichment");
+                // each dequeue is processed and completed once: completions never exceed processings
+                assert!(COMPLETED[k] <= PROCESSED[k], "[C41] a frame was marked complete more often than it was processed");
+                k += 1;
+            }
+            assert!(WORK_SINCE_CKPT == 0, "[C41] the worker stopped with completed work that was never checkpointed");
+            assert!(!handle.is_running(), "[C41] the worker loop returned but still reports itself as running");
+            assert!(handle.should_stop(), "[C41] the worker loop returned without having been asked to stop");
+            kani::cover!(PROCESSED[0] > 0 && PROCESSED[1] > 0, "two frames enriched");
+            kani::cover!(CKPTS >= 2, "periodic and final checkpoint");
+        }
+        leak(handle);
+    }
+}
